@@ -42,6 +42,8 @@ def auto_harness(L, funs, proof):
     """void h_<name>(void) { <nondet params>; f(params); }"""
     if proof.get('harness'):
         return proof['harness']
+    if not proof.get('enforce'):
+        raise PipelineError('lemma proof %s needs an explicit harness' % proof['name'])
     f = None
     for x in funs:
         cands = [x] + [{'cname': c[4], 'sig': c[1].replace('static ', '')} for c in x['closures']]
@@ -141,7 +143,7 @@ def run_proof(built, proof, workdir, extra_defs=(), trace=False):
     pdir = os.path.join(workdir, 'p_' + name)
     os.makedirs(pdir, exist_ok=True)
     gb0, gb1 = os.path.join(pdir, 'a.gb'), os.path.join(pdir, 'b.gb')
-    res = {'proof': name, 'unit': u.NAME, 'enforce': proof['enforce'], 'status': 'error', 'obligations': [], 'cmds': [], 'seconds': 0.0,
+    res = {'proof': name, 'unit': u.NAME, 'enforce': proof.get('enforce') or proof.get('lemma'), 'status': 'error', 'obligations': [], 'cmds': [], 'seconds': 0.0,
            'mode': 'unbounded' if proof.get('loops', 'none') in ('contracts', 'none') else 'bounded'}
     mode = proof.get('loops', 'none')
     cc = ['goto-cc', '-I', os.path.join(ROOT, 'stubs'), '--function', 'h_' + name] + list(extra_defs) + list(proof.get('defs', [])) + [built['cfile'], '-o', gb0]
@@ -151,7 +153,9 @@ def run_proof(built, proof, workdir, extra_defs=(), trace=False):
     if rc != 0:
         res['error'] = 'goto-cc failed: ' + (se or so)[-2000:]
         return res
-    gi = ['goto-instrument', '--dfcc', 'h_' + name, '--enforce-contract', proof['enforce']]
+    gi = ['goto-instrument', '--dfcc', 'h_' + name]
+    if proof.get('enforce'):
+        gi += ['--enforce-contract', proof['enforce']]
     for r in list(proof.get('replace', [])) + [x for x in getattr(u, 'ALWAYS_REPLACE', []) if x not in proof.get('no_replace', [])]:
         gi += ['--replace-call-with-contract', r]
     if mode == 'contracts':
